@@ -6,6 +6,8 @@ import (
 	"fmt"
 	"reflect"
 
+	"github.com/Eyevinn/mp4ff/avc"
+	"github.com/Eyevinn/mp4ff/hevc"
 	"github.com/Eyevinn/mp4ff/sei"
 
 	"verif/internal/enum"
@@ -60,6 +62,35 @@ func c17CheckList(c *vf.Ctx, msgs []c17Msg) {
 			if out[i].Type() != msgs[i].Type || !bytes.Equal(out[i].Payload(), raw[i]) {
 				c.Fail("ExtractSEIData content", "the same list of (type, payload) pairs is returned", det(fmt.Sprintf("message %d: type %d payload %x; bytes %x", i, out[i].Type(), out[i].Payload(), w.Bytes())))
 				return
+			}
+		}
+		// the NAL-unit level entry points of the two codecs (extract + decode of every message): for lists of messages
+		// without a typed decoder they must return the same pairs, all alive at the same time
+		general := true
+		for _, m := range msgs {
+			if m.Type == 1 || m.Type == 4 || m.Type == 5 || m.Type == 136 || m.Type == 137 || m.Type == 144 {
+				general = false
+			}
+		}
+		if general {
+			for ci, name := range []string{"avc.ParseSEINalu", "hevc.ParseSEINalu"} {
+				var got []sei.SEIMessage
+				var err error
+				if ci == 0 {
+					got, err = avc.ParseSEINalu(append([]byte{0x06}, w.Bytes()...), nil)
+				} else {
+					got, err = hevc.ParseSEINalu(append([]byte{0x4e, 0x01}, w.Bytes()...), nil)
+				}
+				if err != nil || len(got) != len(in) {
+					c.Fail(name+" list", "the NAL unit level parser returns the same list of (type, payload) pairs", det(fmt.Sprintf("%d messages, err %v; bytes %x", len(got), err, w.Bytes())))
+					return
+				}
+				for i := range got {
+					if got[i].Type() != msgs[i].Type || !bytes.Equal(got[i].Payload(), raw[i]) {
+						c.Fail(name+" content", "the NAL unit level parser returns the same list of (type, payload) pairs", det(fmt.Sprintf("message %d: type %d payload %x; bytes %x", i, got[i].Type(), got[i].Payload(), w.Bytes())))
+						return
+					}
+				}
 			}
 		}
 	})
@@ -234,7 +265,7 @@ func runC17(c *vf.Ctx) {
 	if thorough {
 		c.SetBudget(8 * 60 * 1e9)
 	}
-	c.Rule = "(1) lists of <= 3 (type, payload) messages: type in {0,1,4,5,127,128,254,255,256,510,511,765}, payload = every string over {00,01,02,03,80,ff} up to length 3 plus 5 patterns (all 00, all ff, 00 00 03 repeated, ending in 00 00, ending in 80) at sizes {4,254,255,256,510,511}: WriteSEIMessages then ExtractSEIData must return the same pairs without trailing-bits error; (2) typed messages: TimeCodeSEI with 0-3 clocks where one clock runs over every reachable combination of the nested presence flags x time-offset lengths x boundary values at each position; AVC pic timing for pict_struct 0-8 with and without HRD delays of lengths {1,24,32}; mastering display / content light level boundary values; pass-through messages (registered, unregistered, CEA-608, HEVC pic timing): Decode(Payload()) equals the message, Size() == len(Payload())."
+	c.Rule = "(1) lists of <= 3 (type, payload) messages: type in {0,1,4,5,127,128,254,255,256,510,511,765}, payload = every string over {00,01,02,03,80,ff} up to length 3 plus 5 patterns (all 00, all ff, 00 00 03 repeated, ending in 00 00, ending in 80) at sizes {4,254,255,256,510,511}: WriteSEIMessages then ExtractSEIData must return the same pairs without trailing-bits error, and so must avc.ParseSEINalu / hevc.ParseSEINalu on the NAL unit for lists without typed messages; (2) typed messages: TimeCodeSEI with 0-3 clocks where one clock runs over every reachable combination of the nested presence flags x time-offset lengths x boundary values at each position; AVC pic timing for pict_struct 0-8 with and without HRD delays of lengths {1,24,32}; mastering display / content light level boundary values; pass-through messages (registered, unregistered, CEA-608, HEVC pic timing): Decode(Payload()) equals the message, Size() == len(Payload())."
 	c.Bound = "message lists of length <= 2 over all payloads and of length 3 over the payloads of length <= 1 and the patterns (quick); thorough: time-offset lengths 0..31 all, lists of length 3 over payloads of length <= 2"
 	types := []uint{0, 1, 4, 5, 127, 128, 254, 255, 256, 510, 511, 765}
 	payloads := c17Payloads()
